@@ -98,7 +98,7 @@ size_t COVER_sum(const size_t *samplesSizes, unsigned nbSamples) ;
 /**
  * Initialize the `COVER_best_t`.
  */
-void COVER_best_init(COVER_best_t *best);
+int COVER_best_init(COVER_best_t *best);   /* @return 0, or non-zero when the mutex / condition could not be created */
 
 /**
  * Wait until liveJobs == 0.
